@@ -210,6 +210,10 @@ class MonitoredList(MonitoredContainer, list):
         super().append(item)
 
     def __setitem__(self, idx, value):
+        if isinstance(idx, int) and -len(self) <= idx < 0:
+            # Recording the relation can append inferred elements to this list, a position that is counted from the end
+            # has to be fixed before that happens.
+            idx += len(self)
         value = self._on_add(value)
         super().__setitem__(idx, value)
 
